@@ -229,7 +229,36 @@ def r6_a_nested_blueprint_stays_one_component(ctx):
     component_list_only_pushed(ctx, 'C05.R6')
 
 
+UNSTABLE_ORDER = ('sort_unstable', 'sort_unstable_by', 'sort_unstable_by_key', 'select_nth_unstable', 'select_nth_unstable_by', 'select_nth_unstable_by_key')
+
+
+def r7_registration_order_is_never_resorted_unstably(ctx):
+    ctx.rule('C05.R7', 'P3 who-may-call (expected count 0, with a positive control): the lists of component ids the pipeline is built from carry the REGISTRATION order, '
+             'and within a stage several pre- (or post-) processing middlewares compare equal under every "position in the stage" key. Nowhere in pavexc\'s '
+             '`processing_pipeline` and `components::db` modules is a slice / Vec of component ids handed to an unstable sort or selection '
+             '(`sort_unstable*`, `select_nth_unstable*`): an unstable sort is free to permute equal elements (it does, beyond 20 elements), so the documented '
+             '"in registration order" would hold for short chains only. (A stable `sort_by_key` keeps the order of equal elements and is not flagged.)')
+    seen_sorts, bad = 0, []
+    for b in ctx.fb.bodies('pavexc'):
+        if b.is_promoted:
+            continue
+        for bb, t in b.calls():
+            c = callee(t) or ''
+            m = c.split('::')[-1].split('<')[0]
+            if m.startswith('sort') or m.startswith('select_nth'):
+                seen_sorts += 1
+                a0 = (t.get('aty') or [''])[0]
+                if m in UNSTABLE_ORDER and 'components::component::Component>' in a0 and ('processing_pipeline' in b.nid or 'components::db' in b.nid):
+                    bad.append((b, bb, t, m))
+    ctx.floor('C05.R7', 'sort / select calls seen in pavexc (positive control)', seen_sorts, 5)
+    for b, bb, t, m in bad:
+        ctx.ob('C05.R7', 'unstable-sort-of-component-ids|%s' % b.nid.replace(PX, '').replace('pavexc::', ''), False, b.loc(bb, t),
+               '%s on %s: equal elements (middlewares of the same kind in one stage) may come out in any order' % (m, (t.get('aty') or [''])[0][:80]))
+    ctx.ob('C05.R7', 'registration-order-never-sorted-unstably', not bad, '', '%d sort / select call(s) in pavexc, %d unstable one(s) on component ids in the pipeline builders' % (seen_sorts, len(bad)))
+
+
 def check(ctx):
+    r7_registration_order_is_never_resorted_unstably(ctx)
     r6_a_nested_blueprint_stays_one_component(ctx)
     r5_chain_recorded_per_handler(ctx)
     r1_snapshots(ctx)
